@@ -183,6 +183,7 @@ EXTRA_TEXT = {
     'C12': ' Metropolis transitions must reject (state unchanged) whenever an exception cut the trajectory and never accept an intermediate state.',
     'C13': ' Configurations with two statistics-bearing transitions declaring the same statistic names are judged row by row per transition; files in a user memmap directory are matched to returned arrays by content (the naming scheme is undocumented).',
     'C15': ' Interrupts are also injected at the same point of EVERY chain with more chains than workers (queued chains never start); memory-map files are matched by content.',
+    'C16': ' A third of the stager grid and of the sampler runs use adapters whose is_fast flag is computed (a numpy.bool_ from an array comparison) instead of a bool class attribute.',
     'C17': ' A constrained-system case drives the real metric adapters on chain states used under the old metric and compares the refreshed momentum with P_new L_new z.',
     'C19': ' The derived objects (T, inv, sqrt: their array, inverse, determinant) of two equal instances queried in different orders - including derived-last vs derived-first - must agree.',
     'C20': ' Sums/differences are judged at the achievable scale eps*(|larger operand|+|result|) plus the rounding of lo-hi; programs mix in-place adds of plain numbers with reads of the linear value, which is judged after every step.',
